@@ -61,19 +61,15 @@ def countsOf (w : World) : Target → Counts
   | .trie i => w.counts[i]!
   | .batch => match w.batch with | some b => b.counts | none => []
 
-/-- fetches of `traverse`: the root (unless `fromNode`), then the hashed nodes on the way -/
+/-- the store a target reads through -/
+def storeOf (w : World) : Target → Store
+  | .batch => { base := w.base, cache := w.batch.map (·.cache), failAfter := none }
+  | .trie _ => { base := w.base, cache := none, failAfter := none }
+
 def travReads (w : World) (tg : Target) (root? : Option Hash) (t : Node) (p : Path) : Option Exn :=
-  let store : Store := match tg with
-    | .batch => { base := w.base, cache := w.batch.map (·.cache), failAfter := none }
-    | .trie _ => { base := w.base, cache := none, failAfter := none }
-  let rootMissing := match root? with
-    | some r => r ≠ blankRootHash && !(store.contains r)
-    | none => false
-  if rootMissing then some (.missingTraversalNode (root?.getD []) [])
-  else
-    match (traverseReads Hs t p []).find? (fun e => !(store.contains e.1)) with
-    | some (h, pre) => some (.missingTraversalNode h pre)
-    | none => none
+  match opTraverse Hs blankRootHash root? t p (storeOf w tg) with
+  | .ok _ => none
+  | .error e => some e
 
 def step (st : St) (cmd : String) (args : List String) : St × String :=
   let w := st.w
